@@ -156,10 +156,10 @@ class Reader:
                 self.meta["fileTimeSecs"] = ftsec
         else:
             if self.nc * self.ns * self.dtype.itemsize != self.nbytes:
+                # only complete sample frames count: the last frame of an interrupted write may be partial
                 ftsec = (
                     self.file_bin.stat().st_size
-                    / self.dtype.itemsize
-                    / self.nc
+                    // (self.dtype.itemsize * self.nc)
                     / self.fs
                 )
                 if self.meta is not None:
